@@ -15,7 +15,7 @@ from clikit.ui.components.exception_trace import ExceptionTrace, Highlighter
 
 from harness.tracegen import inner
 from harness.tracegen.lib import outer
-from vf.sym import conc_bool, conc_int, untraced
+from vf.sym import conc_bool, conc_int, isolated, untraced
 
 PROPERTY = "C20"
 FUNCTIONS = ["ExceptionTrace.render/_render_exception/_render_trace/_render_snippet/_render_line/ignore_files_in", "Highlighter.code_snippet/highlighted_lines/split_to_lines/line_numbers"]
@@ -156,15 +156,16 @@ def render(msg_i: int, verbosity: int, simple: bool, utf8: bool, ignore_i: int) 
     pre: 0 <= msg_i < len(MESSAGES) and 0 <= verbosity <= 3 and 0 <= ignore_i <= 2
     post: _
     """
-    return untraced(_render_case, PART["site"], conc_int(msg_i, 0, len(MESSAGES) - 1), conc_int(verbosity, 0, 3), conc_bool(simple), conc_bool(utf8), conc_int(ignore_i, 0, 2), None, 0)
+    return isolated(_render_case, PART["site"], conc_int(msg_i, 0, len(MESSAGES) - 1), conc_int(verbosity, 0, 3), conc_bool(simple), conc_bool(utf8), conc_int(ignore_i, 0, 2), None, 0)
 
 
 def render_twice(site_i: int, verbosity: int, ignore_i: int, second_ignore_i: int, second_verbosity: int) -> bool:
     """
     pre: 0 <= site_i < 10 and 0 <= verbosity <= 3 and 0 <= ignore_i <= 2 and 0 <= second_ignore_i <= 2 and 0 <= second_verbosity <= 3
+    pre: site_i == PART["site"]
     post: _
     """
-    return untraced(_render_case, conc_int(site_i, 0, 9), 0, conc_int(verbosity, 0, 3), False, True, conc_int(ignore_i, 0, 2), conc_int(second_ignore_i, 0, 2), conc_int(second_verbosity, 0, 3))
+    return isolated(_render_case, conc_int(site_i, 0, 9), 0, conc_int(verbosity, 0, 3), False, True, conc_int(ignore_i, 0, 2), conc_int(second_ignore_i, 0, 2), conc_int(second_verbosity, 0, 3))
 
 
 def render_twin(msg_i: int, verbosity: int, simple: bool, utf8: bool, ignore_i: int) -> bool:
@@ -173,7 +174,7 @@ def render_twin(msg_i: int, verbosity: int, simple: bool, utf8: bool, ignore_i: 
     post: _
     """
     m, ig = conc_int(msg_i, 0, len(MESSAGES) - 1), conc_int(ignore_i, 0, 2)
-    ok = untraced(_render_case, 1, m, 1, False, True, ig, None, 0)
+    ok = isolated(_render_case, 1, m, 1, False, True, ig, None, 0)
     return not (ok and MESSAGES[m] == "</info>" and ig == 1)      # twin: the markup site with an ignore pattern really passes all snippet checks
 
 
@@ -237,6 +238,8 @@ def conditions(tier):
     for si, (site, cls, line) in enumerate(SITES):
         conds.append({"name": "render[%s]" % site, "fn": render, "timeout": t, "part": {"site": si},
                       "bounds": "%s raised at %s; 8 messages x 4 verbosities x simple x UTF-8 x 3 ignore patterns" % (cls, "inner.py:%d" % line if line else "code without source")})
-    conds.append({"name": "render_twice", "fn": render_twice, "timeout": t, "bounds": "10 raise sites; two renders in one process with independent ignore patterns and verbosities"})
+    for si in range(10):
+        conds.append({"name": "render_twice[%s]" % SITES[si][0], "fn": render_twice, "timeout": t, "part": {"site": si},
+                      "bounds": "raise site %s; two renders in one process (forked per case) with independent ignore patterns and verbosities" % SITES[si][0]})
     conds.append({"name": "render_twin", "fn": render_twin, "timeout": t, "expect": "refute", "part": {"site": 1}, "bounds": "reachability twin"})
     return conds
